@@ -167,7 +167,7 @@ def textbook(cls, kw):
 def algebra(cls, kw, get, ctx, case):
     """Defining algebra evaluated on the matrices returned by the site (leg basis)."""
     def chk(name, A, B, tol=1e-12):
-        if np.linalg.norm(A - B) > tol * max(1.0, np.linalg.norm(B)):
+        if not (np.linalg.norm(A - B) <= tol * max(1.0, np.linalg.norm(B))):
             ctx.violation('%s:algebra:%s' % (cls, name), '|lhs - rhs| = %g' % np.linalg.norm(A - B), case)
 
     def comm(a, b):
@@ -265,7 +265,7 @@ def check_site(ctx, cls, kw, site, ref_site, case, full=True):
         std = np.zeros_like(M)
         std[np.ix_(perm, perm)] = M  # M[k,l] = std[perm[k], perm[l]]
         if name in tb_ops:
-            if np.linalg.norm(std - tb_ops[name]) > 1e-12:
+            if not (np.linalg.norm(std - tb_ops[name]) <= 1e-12):
                 ctx.violation('%s:op-differs-from-textbook:%s' % (cls, name), 'standard-basis matrix %r expected %r' %
                               (np.round(std, 4).tolist(), np.round(tb_ops[name], 4).tolist()), case)
         if ref_site is not None and name in ref_site.opnames:
@@ -273,7 +273,7 @@ def check_site(ctx, cls, kw, site, ref_site, case, full=True):
             rp = np.asarray(ref_site.perm)
             Rstd = np.zeros_like(R)
             Rstd[np.ix_(rp, rp)] = R
-            if np.linalg.norm(std - Rstd) > 1e-12:
+            if not (np.linalg.norm(std - Rstd) <= 1e-12):
                 ctx.violation('%s:op-differs-between-conserve-options:%s' % (cls, name), '', case)
         # charge of every non-zero matrix element: q_row - q_col == op.qtotal
         if len(mod):
@@ -287,12 +287,12 @@ def check_site(ctx, cls, kw, site, ref_site, case, full=True):
         # hc pairs
         hc = site.hc_ops.get(name)
         if hc is not None:
-            if hc not in site.opnames or np.linalg.norm(get(hc) - M.conj().T) > 1e-12:
+            if hc not in site.opnames or not (np.linalg.norm(get(hc) - M.conj().T) <= 1e-12):
                 ctx.violation('%s:hc_ops-not-adjoint:%s' % (cls, name), 'declared hc %r' % hc, case)
             if site.get_hc_op_name(name) != hc:
                 ctx.violation('%s:get_hc_op_name:%s' % (cls, name), '', case)
         # JW flags: anticommutes with JW <=> need_JW (bookkeeping operators JW* excluded)
-        if 'JW' in site.opnames and not name.startswith('JW') and np.linalg.norm(M) > 0:
+        if 'JW' in site.opnames and not name.startswith('JW') and not (np.linalg.norm(M) <= 0):
             JW = get('JW')
             anti = np.linalg.norm(JW @ M + M @ JW) < 1e-12
             commu = np.linalg.norm(JW @ M - M @ JW) < 1e-12
@@ -321,10 +321,10 @@ def check_site(ctx, cls, kw, site, ref_site, case, full=True):
                 continue
             ctx.violation('%s:get_op-product-raises' % cls, '%r: %r' % (a + ' ' + b, e), case)
             continue
-        if np.linalg.norm(P - get(a) @ get(b)) > 1e-12:
+        if not (np.linalg.norm(P - get(a) @ get(b)) <= 1e-12):
             ctx.violation('%s:get_op-product-wrong' % cls, '%r' % (a + ' ' + b), case)
         combined = site.multiply_op_names([a, b])
-        if np.linalg.norm(site.get_op(combined).to_ndarray() - get(a) @ get(b)) > 1e-12:
+        if not (np.linalg.norm(site.get_op(combined).to_ndarray() - get(a) @ get(b)) <= 1e-12):
             ctx.violation('%s:multiply_op_names-wrong' % cls, '%r -> %r' % ([a, b], combined), case)
         need = site.op_needs_JW(a) != site.op_needs_JW(b)
         if site.op_needs_JW(combined) != need and not (a.startswith('JW') or b.startswith('JW')):
@@ -363,7 +363,7 @@ def case_grid(ctx, i):
         M = site.get_op(a).to_ndarray().copy()
         hc = site.hc_ops.get(a)
         site.rename_op(a, 'Renamed')
-        if 'Renamed' not in site.opnames or a in site.opnames or np.linalg.norm(site.get_op('Renamed').to_ndarray() - M) > 0:
+        if 'Renamed' not in site.opnames or a in site.opnames or not (np.linalg.norm(site.get_op('Renamed').to_ndarray() - M) <= 0):
             ctx.violation('%s:rename_op-broken' % cls, a, case)
         if hc is not None and hc != a and site.hc_ops.get(hc) != 'Renamed':
             ctx.violation('%s:rename_op-hc-bookkeeping' % cls, 'hc of %r is %r' % (hc, site.hc_ops.get(hc)), case)
@@ -379,7 +379,7 @@ def case_grid(ctx, i):
             site.add_op('Extra', std, need_JW=False, hc=False)
             p = np.asarray(site.perm)
             got = site.get_op('Extra').to_ndarray()
-            if np.linalg.norm(got - std[np.ix_(p, p)]) > 1e-13:
+            if not (np.linalg.norm(got - std[np.ix_(p, p)]) <= 1e-13):
                 ctx.violation('%s:add_op-not-permuted' % cls, '', case)
             site.remove_op('Extra')
         before = {n: standard(site, n) for n in site.opnames}
@@ -493,7 +493,7 @@ def case_grouped(ctx, i):
             got = g.get_op(gname).to_ndarray()
             exp = np.zeros_like(ref)
             exp[np.ix_(pm, pm)] = ref
-            if np.linalg.norm(got - exp) > 1e-12:
+            if not (np.linalg.norm(got - exp) <= 1e-12):
                 ctx.violation('GroupedSite:op-differs-from-kron:%s' % ('fermionic' if s.op_needs_JW(name) else 'bosonic'),
                               'operator %r' % gname, case)
                 return
@@ -502,7 +502,7 @@ def case_grouped(ctx, i):
     JW = dense.kron_all([s.get_op('JW').to_ndarray() for s in gs])
     exp = np.zeros_like(JW)
     exp[np.ix_(pm, pm)] = JW
-    if np.linalg.norm(g.get_op('JW').to_ndarray() - exp) > 1e-12:
+    if not (np.linalg.norm(g.get_op('JW').to_ndarray() - exp) <= 1e-12):
         ctx.violation('GroupedSite:JW-not-product', '', case)
     # if the grouped site claims a rule "charge -> Jordan-Wigner sign", the rule has to reproduce its JW operator
     if getattr(g, 'charge_to_JW_parity', None) is not None:
@@ -564,7 +564,7 @@ def case_car(ctx, i):
             M1, M2 = mpo_matrix([t1], [1.0]), mpo_matrix([t2], [1.0])
             R1, R2 = dense.term_matrix(sites, t1), dense.term_matrix(sites, t2)
             ctx.count('car.pairs')
-            if np.linalg.norm(M1 - R1) > 1e-12 or np.linalg.norm(M2 - R2) > 1e-12:
+            if not (np.linalg.norm(M1 - R1) <= 1e-12) or not (np.linalg.norm(M2 - R2) <= 1e-12):
                 rel = 'i<j' if a < b else ('i=j' if a == b else 'i>j')
                 ctx.violation('car:mpo-of-term-differs-from-JW-matrices:%s' % rel, 'terms %r' % [t1, t2], case)
                 return
@@ -576,7 +576,7 @@ def case_car(ctx, i):
                 exp = dense.op_on_chain(sites, {a: o1 @ o2 + o2 @ o1})
             else:
                 exp = np.zeros((D, D))
-            if np.linalg.norm(anti - exp) > 1e-12:
+            if not (np.linalg.norm(anti - exp) <= 1e-12):
                 ctx.violation('car:anticommutator-wrong', 'terms %r: |{A,B} - expected| = %g' % ([t1, t2], np.linalg.norm(anti - exp)), case)
         elif mode == 'multi':
             if len(ferm) < 2:
@@ -597,7 +597,7 @@ def case_car(ctx, i):
             except Exception as e:
                 ctx.violation('car:mpo-of-multi-term-raises-%s' % type(e).__name__, traceback.format_exc()[-500:], case)
                 return
-            if np.linalg.norm(M - R) > 1e-12:
+            if not (np.linalg.norm(M - R) <= 1e-12):
                 ctx.violation('car:mpo-of-multi-term-differs-from-JW-matrices', 'term %r: |diff| %g' % (term, np.linalg.norm(M - R)), case)
         else:
             # CouplingModel on a chain: add_coupling / add_multi_coupling with fermionic operators in arbitrary order
@@ -637,7 +637,7 @@ def case_car(ctx, i):
             ctx.count('car.coupling_model')
             H = m.calc_H_MPO()
             M = dense.mpo_to_matrix(H)
-            if np.linalg.norm(M - ref) > 1e-11:
+            if not (np.linalg.norm(M - ref) <= 1e-11):
                 ctx.violation('car:coupling-model-mpo-differs-from-JW-matrices:%s' % ('multi' if 'add_multi_coupling' in case else 'two-site'),
                               '|H_MPO - reference| = %g' % np.linalg.norm(M - ref), case)
     except _Skip:
